@@ -96,6 +96,9 @@ public class BigNumOv {
 	@TLAPlusOperator(identifier = "Pow", module = "BigNum", warn = false)
 	public static Value Pow(final Value a, final Value k) { return enc(dec(a).pow(((IntValue) k).val)); }
 
+	@TLAPlusOperator(identifier = "Gcd", module = "BigNum", warn = false)
+	public static Value Gcd(final Value a, final Value b) { return enc(dec(a).gcd(dec(b))); }
+
 	@TLAPlusOperator(identifier = "OfInt", module = "BigNum", warn = false)
 	public static Value OfInt(final Value n) { return enc(BigInteger.valueOf(((IntValue) n).val)); }
 
